@@ -92,7 +92,14 @@ Record gstate := GS {
   sb : subid -> sbpc;
   td : subid -> dpc;
   stopic : subid -> topic;
-  panicked : bool
+  panicked : bool;
+  (* ghost state, never read by [gstep]: only there to state invariants over unboundedly many
+     threads / subscriptions / publications (GoChannel/RegProofs.v) *)
+  allthr : list tid;                     (* ghost: client threads ever started (GPublish / GClose) *)
+  allsubs : list subid;                  (* ghost: subscription ids ever passed to GSubscribe *)
+  ptopic : pubid -> topic;               (* ghost: the topic a publication id was published to *)
+  pmsgs : tid -> list pubid;             (* ghost: the message list of thread t's Publish call *)
+  pthr : pubid -> tid                    (* ghost: the thread whose Publish call carries publication p *)
 }.
 
 Inductive glabel :=
@@ -107,7 +114,8 @@ Inductive glabel :=
 
 Definition ginit (pers blk fx : bool) : gstate :=
   GS pers blk fx false false None [] None [] (fun _ => None) (Some (fun _ => [])) (fun _ => [])
-     0 [] [] [] [] [] (fun _ => TIdle) (fun _ => SNone) (fun _ => DNone) (fun _ => 0) false.
+     0 [] [] [] [] [] (fun _ => TIdle) (fun _ => SNone) (fun _ => DNone) (fun _ => 0) false
+     [] [] (fun _ => 0) (fun _ => []) (fun _ => 0).
 
 Definition owner_eqb (a b : owner) : bool :=
   match a, b with
@@ -122,23 +130,26 @@ Definition remove_owner (o : owner) (l : list owner) : list owner :=
   filter (fun x => negb (owner_eqb o x)) l.
 
 (** field updates *)
-Definition with_thr s t p := GS (persistent s) (blocking s) (fix7 s) (closed s) (gclosing s) (clock s) (readers s) (writer s) (wpending s) (tlock s) (persist s) (subs s) (wg s) (senders s) (sent s) (acked s) (used s) (cancelled s) (upd (thr s) t p) (sb s) (td s) (stopic s) (panicked s).
-Definition with_sb s x p := GS (persistent s) (blocking s) (fix7 s) (closed s) (gclosing s) (clock s) (readers s) (writer s) (wpending s) (tlock s) (persist s) (subs s) (wg s) (senders s) (sent s) (acked s) (used s) (cancelled s) (thr s) (upd (sb s) x p) (td s) (stopic s) (panicked s).
-Definition with_td s x p := GS (persistent s) (blocking s) (fix7 s) (closed s) (gclosing s) (clock s) (readers s) (writer s) (wpending s) (tlock s) (persist s) (subs s) (wg s) (senders s) (sent s) (acked s) (used s) (cancelled s) (thr s) (sb s) (upd (td s) x p) (stopic s) (panicked s).
-Definition with_stopic s x k := GS (persistent s) (blocking s) (fix7 s) (closed s) (gclosing s) (clock s) (readers s) (writer s) (wpending s) (tlock s) (persist s) (subs s) (wg s) (senders s) (sent s) (acked s) (used s) (cancelled s) (thr s) (sb s) (td s) (upd (stopic s) x k) (panicked s).
-Definition with_closed s c cg := GS (persistent s) (blocking s) (fix7 s) c cg (clock s) (readers s) (writer s) (wpending s) (tlock s) (persist s) (subs s) (wg s) (senders s) (sent s) (acked s) (used s) (cancelled s) (thr s) (sb s) (td s) (stopic s) (panicked s).
-Definition with_clock s o := GS (persistent s) (blocking s) (fix7 s) (closed s) (gclosing s) o (readers s) (writer s) (wpending s) (tlock s) (persist s) (subs s) (wg s) (senders s) (sent s) (acked s) (used s) (cancelled s) (thr s) (sb s) (td s) (stopic s) (panicked s).
-Definition with_readers s r := GS (persistent s) (blocking s) (fix7 s) (closed s) (gclosing s) (clock s) r (writer s) (wpending s) (tlock s) (persist s) (subs s) (wg s) (senders s) (sent s) (acked s) (used s) (cancelled s) (thr s) (sb s) (td s) (stopic s) (panicked s).
-Definition with_writer s w wp := GS (persistent s) (blocking s) (fix7 s) (closed s) (gclosing s) (clock s) (readers s) w wp (tlock s) (persist s) (subs s) (wg s) (senders s) (sent s) (acked s) (used s) (cancelled s) (thr s) (sb s) (td s) (stopic s) (panicked s).
-Definition with_tlock s k o := GS (persistent s) (blocking s) (fix7 s) (closed s) (gclosing s) (clock s) (readers s) (writer s) (wpending s) (upd (tlock s) k o) (persist s) (subs s) (wg s) (senders s) (sent s) (acked s) (used s) (cancelled s) (thr s) (sb s) (td s) (stopic s) (panicked s).
-Definition with_persist s p := GS (persistent s) (blocking s) (fix7 s) (closed s) (gclosing s) (clock s) (readers s) (writer s) (wpending s) (tlock s) p (subs s) (wg s) (senders s) (sent s) (acked s) (used s) (cancelled s) (thr s) (sb s) (td s) (stopic s) (panicked s).
-Definition with_subs s k l := GS (persistent s) (blocking s) (fix7 s) (closed s) (gclosing s) (clock s) (readers s) (writer s) (wpending s) (tlock s) (persist s) (upd (subs s) k l) (wg s) (senders s) (sent s) (acked s) (used s) (cancelled s) (thr s) (sb s) (td s) (stopic s) (panicked s).
-Definition with_wg s n := GS (persistent s) (blocking s) (fix7 s) (closed s) (gclosing s) (clock s) (readers s) (writer s) (wpending s) (tlock s) (persist s) (subs s) n (senders s) (sent s) (acked s) (used s) (cancelled s) (thr s) (sb s) (td s) (stopic s) (panicked s).
-Definition with_senders s l sn := GS (persistent s) (blocking s) (fix7 s) (closed s) (gclosing s) (clock s) (readers s) (writer s) (wpending s) (tlock s) (persist s) (subs s) (wg s) l sn (acked s) (used s) (cancelled s) (thr s) (sb s) (td s) (stopic s) (panicked s).
-Definition with_acked s l := GS (persistent s) (blocking s) (fix7 s) (closed s) (gclosing s) (clock s) (readers s) (writer s) (wpending s) (tlock s) (persist s) (subs s) (wg s) (senders s) (sent s) l (used s) (cancelled s) (thr s) (sb s) (td s) (stopic s) (panicked s).
-Definition with_used s l := GS (persistent s) (blocking s) (fix7 s) (closed s) (gclosing s) (clock s) (readers s) (writer s) (wpending s) (tlock s) (persist s) (subs s) (wg s) (senders s) (sent s) (acked s) l (cancelled s) (thr s) (sb s) (td s) (stopic s) (panicked s).
-Definition with_cancelled s l := GS (persistent s) (blocking s) (fix7 s) (closed s) (gclosing s) (clock s) (readers s) (writer s) (wpending s) (tlock s) (persist s) (subs s) (wg s) (senders s) (sent s) (acked s) (used s) l (thr s) (sb s) (td s) (stopic s) (panicked s).
-Definition with_panic s := GS (persistent s) (blocking s) (fix7 s) (closed s) (gclosing s) (clock s) (readers s) (writer s) (wpending s) (tlock s) (persist s) (subs s) (wg s) (senders s) (sent s) (acked s) (used s) (cancelled s) (thr s) (sb s) (td s) (stopic s) true.
+Definition with_thr s t p := GS (persistent s) (blocking s) (fix7 s) (closed s) (gclosing s) (clock s) (readers s) (writer s) (wpending s) (tlock s) (persist s) (subs s) (wg s) (senders s) (sent s) (acked s) (used s) (cancelled s) (upd (thr s) t p) (sb s) (td s) (stopic s) (panicked s) (allthr s) (allsubs s) (ptopic s) (pmsgs s) (pthr s).
+Definition with_sb s x p := GS (persistent s) (blocking s) (fix7 s) (closed s) (gclosing s) (clock s) (readers s) (writer s) (wpending s) (tlock s) (persist s) (subs s) (wg s) (senders s) (sent s) (acked s) (used s) (cancelled s) (thr s) (upd (sb s) x p) (td s) (stopic s) (panicked s) (allthr s) (allsubs s) (ptopic s) (pmsgs s) (pthr s).
+Definition with_td s x p := GS (persistent s) (blocking s) (fix7 s) (closed s) (gclosing s) (clock s) (readers s) (writer s) (wpending s) (tlock s) (persist s) (subs s) (wg s) (senders s) (sent s) (acked s) (used s) (cancelled s) (thr s) (sb s) (upd (td s) x p) (stopic s) (panicked s) (allthr s) (allsubs s) (ptopic s) (pmsgs s) (pthr s).
+Definition with_stopic s x k := GS (persistent s) (blocking s) (fix7 s) (closed s) (gclosing s) (clock s) (readers s) (writer s) (wpending s) (tlock s) (persist s) (subs s) (wg s) (senders s) (sent s) (acked s) (used s) (cancelled s) (thr s) (sb s) (td s) (upd (stopic s) x k) (panicked s) (allthr s) (allsubs s) (ptopic s) (pmsgs s) (pthr s).
+Definition with_closed s c cg := GS (persistent s) (blocking s) (fix7 s) c cg (clock s) (readers s) (writer s) (wpending s) (tlock s) (persist s) (subs s) (wg s) (senders s) (sent s) (acked s) (used s) (cancelled s) (thr s) (sb s) (td s) (stopic s) (panicked s) (allthr s) (allsubs s) (ptopic s) (pmsgs s) (pthr s).
+Definition with_clock s o := GS (persistent s) (blocking s) (fix7 s) (closed s) (gclosing s) o (readers s) (writer s) (wpending s) (tlock s) (persist s) (subs s) (wg s) (senders s) (sent s) (acked s) (used s) (cancelled s) (thr s) (sb s) (td s) (stopic s) (panicked s) (allthr s) (allsubs s) (ptopic s) (pmsgs s) (pthr s).
+Definition with_readers s r := GS (persistent s) (blocking s) (fix7 s) (closed s) (gclosing s) (clock s) r (writer s) (wpending s) (tlock s) (persist s) (subs s) (wg s) (senders s) (sent s) (acked s) (used s) (cancelled s) (thr s) (sb s) (td s) (stopic s) (panicked s) (allthr s) (allsubs s) (ptopic s) (pmsgs s) (pthr s).
+Definition with_writer s w wp := GS (persistent s) (blocking s) (fix7 s) (closed s) (gclosing s) (clock s) (readers s) w wp (tlock s) (persist s) (subs s) (wg s) (senders s) (sent s) (acked s) (used s) (cancelled s) (thr s) (sb s) (td s) (stopic s) (panicked s) (allthr s) (allsubs s) (ptopic s) (pmsgs s) (pthr s).
+Definition with_tlock s k o := GS (persistent s) (blocking s) (fix7 s) (closed s) (gclosing s) (clock s) (readers s) (writer s) (wpending s) (upd (tlock s) k o) (persist s) (subs s) (wg s) (senders s) (sent s) (acked s) (used s) (cancelled s) (thr s) (sb s) (td s) (stopic s) (panicked s) (allthr s) (allsubs s) (ptopic s) (pmsgs s) (pthr s).
+Definition with_persist s p := GS (persistent s) (blocking s) (fix7 s) (closed s) (gclosing s) (clock s) (readers s) (writer s) (wpending s) (tlock s) p (subs s) (wg s) (senders s) (sent s) (acked s) (used s) (cancelled s) (thr s) (sb s) (td s) (stopic s) (panicked s) (allthr s) (allsubs s) (ptopic s) (pmsgs s) (pthr s).
+Definition with_subs s k l := GS (persistent s) (blocking s) (fix7 s) (closed s) (gclosing s) (clock s) (readers s) (writer s) (wpending s) (tlock s) (persist s) (upd (subs s) k l) (wg s) (senders s) (sent s) (acked s) (used s) (cancelled s) (thr s) (sb s) (td s) (stopic s) (panicked s) (allthr s) (allsubs s) (ptopic s) (pmsgs s) (pthr s).
+Definition with_wg s n := GS (persistent s) (blocking s) (fix7 s) (closed s) (gclosing s) (clock s) (readers s) (writer s) (wpending s) (tlock s) (persist s) (subs s) n (senders s) (sent s) (acked s) (used s) (cancelled s) (thr s) (sb s) (td s) (stopic s) (panicked s) (allthr s) (allsubs s) (ptopic s) (pmsgs s) (pthr s).
+Definition with_senders s l sn := GS (persistent s) (blocking s) (fix7 s) (closed s) (gclosing s) (clock s) (readers s) (writer s) (wpending s) (tlock s) (persist s) (subs s) (wg s) l sn (acked s) (used s) (cancelled s) (thr s) (sb s) (td s) (stopic s) (panicked s) (allthr s) (allsubs s) (ptopic s) (pmsgs s) (pthr s).
+Definition with_acked s l := GS (persistent s) (blocking s) (fix7 s) (closed s) (gclosing s) (clock s) (readers s) (writer s) (wpending s) (tlock s) (persist s) (subs s) (wg s) (senders s) (sent s) l (used s) (cancelled s) (thr s) (sb s) (td s) (stopic s) (panicked s) (allthr s) (allsubs s) (ptopic s) (pmsgs s) (pthr s).
+Definition with_used s l := GS (persistent s) (blocking s) (fix7 s) (closed s) (gclosing s) (clock s) (readers s) (writer s) (wpending s) (tlock s) (persist s) (subs s) (wg s) (senders s) (sent s) (acked s) l (cancelled s) (thr s) (sb s) (td s) (stopic s) (panicked s) (allthr s) (allsubs s) (ptopic s) (pmsgs s) (pthr s).
+Definition with_cancelled s l := GS (persistent s) (blocking s) (fix7 s) (closed s) (gclosing s) (clock s) (readers s) (writer s) (wpending s) (tlock s) (persist s) (subs s) (wg s) (senders s) (sent s) (acked s) (used s) l (thr s) (sb s) (td s) (stopic s) (panicked s) (allthr s) (allsubs s) (ptopic s) (pmsgs s) (pthr s).
+Definition with_panic s := GS (persistent s) (blocking s) (fix7 s) (closed s) (gclosing s) (clock s) (readers s) (writer s) (wpending s) (tlock s) (persist s) (subs s) (wg s) (senders s) (sent s) (acked s) (used s) (cancelled s) (thr s) (sb s) (td s) (stopic s) true (allthr s) (allsubs s) (ptopic s) (pmsgs s) (pthr s).
+Definition with_allthr s l := GS (persistent s) (blocking s) (fix7 s) (closed s) (gclosing s) (clock s) (readers s) (writer s) (wpending s) (tlock s) (persist s) (subs s) (wg s) (senders s) (sent s) (acked s) (used s) (cancelled s) (thr s) (sb s) (td s) (stopic s) (panicked s) l (allsubs s) (ptopic s) (pmsgs s) (pthr s).
+Definition with_allsubs s l := GS (persistent s) (blocking s) (fix7 s) (closed s) (gclosing s) (clock s) (readers s) (writer s) (wpending s) (tlock s) (persist s) (subs s) (wg s) (senders s) (sent s) (acked s) (used s) (cancelled s) (thr s) (sb s) (td s) (stopic s) (panicked s) (allthr s) l (ptopic s) (pmsgs s) (pthr s).
+Definition with_pub s (pt : pubid -> topic) (pm : tid -> list pubid) (po : pubid -> tid) := GS (persistent s) (blocking s) (fix7 s) (closed s) (gclosing s) (clock s) (readers s) (writer s) (wpending s) (tlock s) (persist s) (subs s) (wg s) (senders s) (sent s) (acked s) (used s) (cancelled s) (thr s) (sb s) (td s) (stopic s) (panicked s) (allthr s) (allsubs s) pt pm po.
 
 (** RWMutex rules *)
 Definition can_rlock (s : gstate) : bool :=
@@ -153,19 +164,29 @@ Fixpoint nodupb (l : list nat) : bool :=
 Definition persist_get (s : gstate) (k : topic) : list pubid :=
   match persist s with Some f => f k | None => [] end.
 
+(** ghost bookkeeping of a Publish call: thread started, topic of its messages, its message list *)
+Definition ghost_publish (s : gstate) (t : tid) (k : topic) (ms : list pubid) : gstate :=
+  with_pub (with_allthr s (t :: allthr s))
+           (fun p => if mem p ms then k else ptopic s p) (upd (pmsgs s) t ms)
+           (fun p => if mem p ms then t else pthr s p).
+
 Definition gstep (s : gstate) (l : glabel) : option gstate :=
   match l with
   | GPublish t k ms =>
       match thr s t with
       | TIdle => if nodupb ms && disjointb ms (used s)
-                 then Some (with_thr (with_used s (ms ++ used s)) t (PCheck k ms)) else None
+                 then Some (with_thr (with_used (ghost_publish s t k ms) (ms ++ used s)) t (PCheck k ms))
+                 else None
       | _ => None
       end
   | GClose t =>
-      match thr s t with TIdle => Some (with_thr s t CLock) | _ => None end
+      match thr s t with
+      | TIdle => Some (with_thr (with_allthr s (t :: allthr s)) t CLock)
+      | _ => None
+      end
   | GSubscribe x k =>
       match sb s x, td s x with
-      | SNone, DNone => Some (with_sb (with_stopic s x k) x (SCheck k))
+      | SNone, DNone => Some (with_sb (with_stopic (with_allsubs s (x :: allsubs s)) x k) x (SCheck k))
       | _, _ => None
       end
   | GCancel x =>
